@@ -1032,3 +1032,65 @@ pub fn run_case(lines: &[String]) -> CaseResult {
     *stats.entry("instances".into()).or_insert(0) += w.all_labels.len() as u64;
     CaseResult { obs, oracle, nontrivial, stats }
 }
+
+pub fn cli(args: &[String]) -> bool {
+    use crate::util::{arg_num, arg_val, read_cases};
+    use std::io::Write;
+    let cmd = args.get(1).map(|s| s.as_str()).unwrap_or("");
+    match cmd {
+        "domops-gen" => {
+            let seed = arg_num(&args, "--seed", 1);
+            let n = arg_num(&args, "--cases", 100);
+            let cfg = GenCfg {
+                max_ops: arg_num(&args, "--max-ops", 30) as usize,
+                max_doms: arg_num(&args, "--max-doms", 3) as usize,
+                malformed_percent: arg_num(&args, "--malformed", 10),
+                cycle_probe: args.iter().any(|a| a == "--cycle-probe"),
+            };
+            let out = arg_val(&args, "--out").expect("--out");
+            let prefix = arg_val(&args, "--prefix").unwrap_or_else(|| "g".into());
+            let mut f = std::io::BufWriter::new(std::fs::File::create(out).unwrap());
+            let mut rng = crate::rng::Rng::new(seed);
+            for k in 0..n {
+                let mut crng = rng.fork();
+                let lines = gen_case(&mut crng, &cfg);
+                writeln!(f, "case {prefix}{seed}-{k}").unwrap();
+                for l in lines {
+                    writeln!(f, "{l}").unwrap();
+                }
+                writeln!(f, "end").unwrap();
+            }
+        }
+        "domops-run" => {
+            let cases = read_cases(&args[2]);
+            let mut obs = std::io::BufWriter::new(std::fs::File::create(&args[3]).unwrap());
+            let mut orc = std::io::BufWriter::new(std::fs::File::create(&args[4]).unwrap());
+            let mut stats: BTreeMap<String, u64> = BTreeMap::new();
+            let mut nontrivial = 0u64;
+            let mut distinct = std::collections::BTreeSet::new();
+            for (id, lines) in &cases {
+                let r = run_case(lines);
+                writeln!(obs, "case {id}").unwrap();
+                for o in &r.obs {
+                    writeln!(obs, "{o}").unwrap();
+                }
+                writeln!(obs, "end").unwrap();
+                for o in &r.oracle {
+                    writeln!(orc, "{id} {o}").unwrap();
+                }
+                for (k, v) in r.stats {
+                    *stats.entry(k).or_insert(0) += v;
+                }
+                if r.nontrivial && distinct.insert(lines.join("\n")) {
+                    nontrivial += 1;
+                }
+            }
+            stats.insert("cases".into(), cases.len() as u64);
+            stats.insert("distinct_nontrivial".into(), nontrivial);
+            let mut sf = std::fs::File::create(&args[5]).unwrap();
+            writeln!(sf, "{}", serde_json::to_string(&stats).unwrap()).unwrap();
+        }
+        _ => return false,
+    }
+    true
+}
